@@ -1,10 +1,85 @@
 import CoxeterVerif.Driver.Proto
+import CoxeterVerif.Model.Inside2D
+import CoxeterVerif.Spec.Inside2D
 
 namespace OpsC06
+open Inside2D Spec.In2D
+
+def rdP2 {α} [Codec α] (c : Ctx) : Rd (P2 α) := do
+  let x ← Rd.sc c; let y ← Rd.sc c; pure ⟨x, y⟩
+
+def rdTri2 {α} [Codec α] (c : Ctx) : Rd (Tri2 α) := do
+  let a ← rdP2 c; let b ← rdP2 c; let d ← rdP2 c; pure ⟨a, b, d⟩
+
+def rdM3 {α} [Codec α] (c : Ctx) : Rd (M3 α) := do
+  let xx ← Rd.sc c; let xy ← Rd.sc c; let xz ← Rd.sc c
+  let yx ← Rd.sc c; let yy ← Rd.sc c; let yz ← Rd.sc c
+  let zx ← Rd.sc c; let zy ← Rd.sc c; let zz ← Rd.sc c
+  pure ⟨xx, xy, xz, yx, yy, yz, zx, zy, zz⟩
+
+def join (l : List String) : String := " ".intercalate (l.filter (· ≠ ""))
 
 /-- driver ops of C06. `none` = unknown op. -/
 def run (α : Type) [Scalar α] [Codec α] (op : String) (c : Ctx) : Option (Rd String) :=
   match op with
+  | "poly.inside" => some do
+      -- in: verts (x y)*, points (x y)* (both already in the rotated frame)
+      -- out: per point  b<is_inside (vectorised model)>  i<half-turn sum>
+      let vs : List (P2 α) ← Rd.list c (rdP2 c)
+      let ps : List (P2 α) ← Rd.list c (rdP2 c)
+      let bs := Polygon.isInsideRotBatch vs ps
+      let hs := ps.map (Polygon.halfTurnSum vs)
+      pure (join ((bs.zip hs).map fun bh => s!"{Out.bool bh.1} {Out.int bh.2}"))
+  | "poly.inside3" => some do
+      -- in: R(9, row major), verts (x y z)*, points (x y z)*
+      -- out: n bools, then the rotated points (3 each), then the rotated vertices (3 each)
+      let R : M3 α ← rdM3 c
+      let vs : List (V3 α) ← Rd.list c (Rd.v3 c)
+      let ps : List (V3 α) ← Rd.list c (Rd.v3 c)
+      let bs := Polygon.isInside R vs ps
+      pure (join [Out.bools bs, join (ps.map fun p => Out.v3 (rotate R p)),
+        join (vs.map fun v => Out.v3 (rotate R v))])
+  | "poly.inside2" => some do
+      -- in: R(9), verts (x y z)*, points (x y)*  ((N,2) input, padded with z = 0) ; out: bools
+      let R : M3 α ← rdM3 c
+      let vs : List (V3 α) ← Rd.list c (Rd.v3 c)
+      let ps : List (P2 α) ← Rd.list c (rdP2 c)
+      pure (Out.bools (Polygon.isInside2 R vs ps))
+  | "circle.inside" => some do
+      -- in: r, centre(3), points (x y z)* ; out: bools
+      let r : α ← Rd.sc c
+      let cen : V3 α ← Rd.v3 c
+      let ps : List (V3 α) ← Rd.list c (Rd.v3 c)
+      pure (Out.bools (Circle.isInside r cen ps))
+  | "ellipse.inside" => some do
+      -- in: a, b, centre(3), points (x y z)* ; out: bools
+      let a : α ← Rd.sc c
+      let b : α ← Rd.sc c
+      let cen : V3 α ← Rd.v3 c
+      let ps : List (V3 α) ← Rd.list c (Rd.v3 c)
+      pure (Out.bools (Ellipse.isInside a b cen ps))
+  | "spec.region" => some do
+      -- in: triangles (ax ay bx by cx cy)*, points (x y)*
+      -- out: area2, then per point  i<number of triangles strictly containing it>
+      --      b<on the boundary of some triangle>
+      let Ts : List (Tri2 α) ← Rd.list c (rdTri2 c)
+      let ps : List (P2 α) ← Rd.list c (rdP2 c)
+      let per := ps.map fun p =>
+        s!"{Out.int (count Ts p)} {Out.bool (Ts.any fun t => onBoundary t p)}"
+      pure (join (Out.sc (area2 Ts) :: per))
+  | "spec.disk" => some do
+      -- in: r, centre(2), points (x y)* ; out: bools
+      let r : α ← Rd.sc c
+      let cen : P2 α ← rdP2 c
+      let ps : List (P2 α) ← Rd.list c (rdP2 c)
+      pure (Out.bools (ps.map (inDisk r cen)))
+  | "spec.ellipse" => some do
+      -- in: a, b, centre(2), points (x y)* ; out: bools
+      let a : α ← Rd.sc c
+      let b : α ← Rd.sc c
+      let cen : P2 α ← rdP2 c
+      let ps : List (P2 α) ← Rd.list c (rdP2 c)
+      pure (Out.bools (ps.map (inEllipse a b cen)))
   | _ => none
 
 end OpsC06
